@@ -116,6 +116,58 @@ func runC09(cfg *hx.Config) {
 			}
 		}
 	}
+	// HISTORY: serializations that FAIL or PANIC half way (an invalid value, a marshaler returning an error or panicking after it
+	// wrote some entries, at several depths) must leave no trace: every later encoding equals the first one
+	rh := hx.NewRand(cfg.Seed + 4242)
+	for round := 0; round < 6; round++ {
+		steps := []string{}
+		for k := 0; k < 1+rh.Intn(4); k++ {
+			f := rh.Intn(len(formats))
+			kind := rh.Intn(3)
+			depth := 1 + rh.Intn(3)
+			func() {
+				defer func() { _ = recover() }()
+				w := newWriter(f, nil)
+				var nest func(w restlicodec.Writer, d int) error
+				nest = func(w restlicodec.Writer, d int) error {
+					return w.WriteMap(func(kw func(string) restlicodec.Writer) error {
+						kw("first").WriteInt32(12345678)
+						kw("second").WriteString("LEFTOVER")
+						if d > 1 {
+							if err := nest(kw("deeper"), d-1); err != nil {
+								return err
+							}
+						}
+						switch kind {
+						case 0:
+							return fmt.Errorf("marshaler failed after writing entries")
+						case 1:
+							panic("marshaler panicked after writing entries")
+						}
+						var np *fam.Inner
+						return np.MarshalRestLi(kw("typed-nil")) // the generated marshaler on a nil receiver
+					})
+				}
+				_ = nest(w, depth)
+			}()
+			steps = append(steps, fmt.Sprintf("%s/%s/depth%d", []string{"error", "panic", "typed-nil"}[kind], formats[f], depth))
+			if tname, v := c01Invalid(rh); v != nil {
+				ptr := reflect.New(registry[tname])
+				schema.toGo(ref(tname), v, ptr.Elem())
+				_, _ = encode(ptr, rh.Intn(len(formats)), nil)
+				steps = append(steps, "invalid-"+tname)
+			}
+		}
+		rep.Count("history-rounds")
+		again := encodeAllDigest(names, vals)
+		for i := range base {
+			if again[i] != base[i] {
+				rep.Fail("canon:differs-after-failed-serialization", "the encoding of a value changed after FAILED / PANICKED serializations of unrelated values in the same process", "v2/restlicodec/writer.go:WriteMap",
+					map[string]interface{}{"type": names[i], "value": vals[i].fixJSON(), "failed_steps_before": steps}, nil)
+				break
+			}
+		}
+	}
 	for p := 0; p < procs; p++ {
 		cmd := exec.Command(os.Args[0], os.Args[1:]...)
 		cmd.Env = append(os.Environ(), "VERIF_C09_CHILD=1")
